@@ -22,6 +22,7 @@ func views() map[string]View {
 		"authwatch": authwatchView{},
 		"poolmon":   poolmonView{},
 		"handover":  handoverView{},
+		"pool":      poolView{},
 	}
 }
 
